@@ -277,11 +277,38 @@ func ruleDrain(c *Ctx, a *tcpAnchors) {
 				return false
 			}
 			dq := drainQ(c, isSrc)
-			_, fail := p.SuccessEdges(f, []ssa.CallInstruction{call}, 1)
+			succ, fail := p.SuccessEdges(f, []ssa.CallInstruction{call}, 1)
 			if len(fail) == 0 {
 				c.CheckAt("DRAIN", short(f)+":relay-copy-error-tested", call, false, "the error of the client-to-target copy is not tested, so a stream that turns invalid is closed at once instead of drained")
 				continue
 			}
+			// nothing is closed between the copy and the examination of its error either (a FIN sent to the target there
+			// makes the target — and then the proxy — close towards the client while the invalid stream is still arriving)
+			tested := eng.Union(succ, fail)
+			var early ssa.Instruction
+			seenB := map[*ssa.BasicBlock]bool{}
+			var scan func(b *ssa.BasicBlock, from int)
+			scan = func(b *ssa.BasicBlock, from int) {
+				for _, ins := range b.Instrs[from:] {
+					if isCloseLike(ins) && early == nil {
+						early = ins
+					}
+				}
+				for _, s := range b.Succs {
+					if !tested[eng.Edge{From: b, To: s}] && !seenB[s] {
+						seenB[s] = true
+						scan(s, 0)
+					}
+				}
+			}
+			pt := eng.After(call)
+			scan(pt.B, pt.Idx)
+			c.CheckAt("DRAIN", short(f)+":nothing-closed-before-the-copy-error-is-examined", call, early == nil, fmt.Sprintf("a direction is closed at %s before the error of the client-to-target copy is examined: when the stream has turned invalid the peer sees the close before the drain", func() string {
+				if early == nil {
+					return "-"
+				}
+				return p.IPos(early)
+			}()))
 			for _, e := range sortedEdges(fail) {
 				ok1, bad := eng.MustPassBefore(edgePoint(e), dq, isCloseLike)
 				c.Check("DRAIN", short(f)+":relay-copy-error-drains-before-close", blockPos(p, e.To), ok1, fmt.Sprintf("after a client-to-target copy error (e.g. a chunk that fails authentication) %s closes a direction before the client connection has been drained", p.IPos(bad)))
